@@ -15,7 +15,7 @@ from mtsa.absint import K, R, S, U, V
 from mtsa.index import Repo, dotted, norm
 from mtsa.report import AnalysisError, Ctx
 
-from .common import attr_is_param, bound_argument, call_sites, cfg_of, is_call_to, returns_of
+from .common import attr_is_param, bound_argument, call_sites, cfg_of, is_call_to, returns_of, block_entry
 from .tracer_model import TRUSTED, TracerScenario, corpus_points, frame_value, relevant
 
 LEVEL = "other"
@@ -193,7 +193,7 @@ def rule_rate_one_traces_all(ctx: Ctx, repo: Repo) -> None:
     answers 0 / n-1 / alternates / counts up): with the rate unset or 1 every call is logged; and with any rate a call that is
     logged is logged once."""
     from .blocks_model import BlocksScenario
-    tc = repo.fn(M, "trace_calls")
+    tc = block_entry(repo)
     ctx.functions.add(tc.fq)
     scripts = {"always 0": lambda b, k: 0, "always the largest value": lambda b, k: b - 1, "alternating": lambda b, k: (b - 1) if k % 2 else 0, "counting up": lambda b, k: k % b}
     n = 0
